@@ -614,13 +614,27 @@ package martian
 // client gone, errors - the socket is closed exactly once, the connection is
 // taken out of the registry and the open-connection counter is back where it
 // was; once shutdown has begun no request is read from the connection.
+// (the open-connection counter inside handleLoop: when it is incremented,
+// useAtReg records how many peer-dependent connection methods had been invoked)
+//@ ghost ivar useAtReg() int
+//@ contract regAdd(x *sync/atomic.Int32, delta int32) (result int32)
+//@ modifies a32(x), useAtReg()
+//@ ensures a32(x) == old(a32(x)) + delta && result == a32(x)
+//@ ensures delta > 0 ==> useAtReg() == connUse()
+//@ ensures delta <= 0 ==> useAtReg() == old(useAtReg())
+
 //@ func (*Proxy).handleLoop
 //@ property C11 C13 C15
+//@ callas (*atomic.Int32).Add regAdd
 //@ requires p != nil && conn != nil && p.conns != nil && lockDepth() == 0 && p.rt != nil
-//@ modifies *, nConnClose(conn), a32(p.connsWg), nRead(), nWrote(), wroteStatus(), sawClosing(), modReqFailed(), upstream(), readOK(), wrotePA(), wErr(), nMITM()
+//@ modifies *, nConnClose(conn), a32(p.connsWg), nRead(), nWrote(), wroteStatus(), sawClosing(), modReqFailed(), upstream(), readOK(), wrotePA(), wErr(), nMITM(), useAtReg()
 //@ ensures nConnClose(conn) == old(nConnClose(conn)) + 1
 //@ ensures a32(p.connsWg) == old(a32(p.connsWg))
 //@ ensures !(conn in p.conns)
+// C11: the connection is registered and counted before anything waits for its
+// peer (RemoteAddr of a PROXY-protocol connection reads the header): an
+// accepted connection is never invisible to Shutdown and Close.
+//@ ensures useAtReg() == old(connUse())
 //@ loop 0:
 //@   invariant p != nil && p.rt != nil && pc != nil && pc.Proxy == p && pc.conn != nil && pc.brw != nil && pc.brw.Writer != nil && pc.brw.Reader != nil
 //@   invariant p.conns == old(p.conns) && p.conns != nil
